@@ -43,6 +43,15 @@ func (sp *StakePool) save(sscKey, providerID string, balances cstate.StateContex
 	return
 }
 
+// Save stores the stake pool in this type's own encoding. Without it the Save promoted from the embedded
+// stakepool.StakePool is what stakepool.StakePoolLock / StakePoolUnlock and provider kill / shutdown call
+// through the AbstractStakePool interface: it stores the bare embedded value, which getStakePool (decoding
+// into the wrapper) reads back as an empty pool.
+func (sp *StakePool) Save(providerType spenum.Provider, providerID string, balances cstate.StateContextI) error {
+	_, err := balances.InsertTrieNode(stakepool.StakePoolKey(providerType, providerID), sp)
+	return err
+}
+
 // empty a delegate pool if possible, call update before the empty
 //
 //nolint:unused
